@@ -43,7 +43,7 @@ PROPS = {
                 assumptions=[L_PATH, L_IDS, TABLE_WF, R13, 'that the popped slice is the handle of the unique derivation is the LR(1) theorem (C01), not mechanised']),
     'C04': dict(units=['driver', 'utils', 'dfa', 'dfa@small', 'buffers', 'terms', 'values', 'charnames'], static=[SF.buffers_static],
                 claim='whitespace skipping is exactly the documented sets; the lexer is asked once at the skipped position with the whole rest of the buffer; the lexeme is exactly [current_it, current_it+len); a failure result yields one Unexpected character report',
-                assumptions=[LEXER, 'longest match/first-listed priority of the automaton itself: unit dfa (dfa_match/run); the union automaton built by merging is not verified (finding D10)']),
+                assumptions=[LEXER, 'longest match/first-listed priority of the automaton itself: unit dfa (dfa_match/run); merge is under contract for its local step (edges are only added; every byte 0..255 of `from` is carried over to `to`), the quick-tier variant assuming that transition targets are states in use ([L-wf], a woven __CPROVER_assume; proved preserved by the full contract in the thorough tier); that the union automaton built by such merging recognises the union language is NOT claimed (finding D10)']),
     'C06': dict(units=['driver', 'stdex', 'utils', 'regex_lexer', 'dfa', 'values', 'cvec_iter', 'state_analyzer', 'charnames'], all=['driver', 'stdex'],
                 claim='every CBMC safety check (bounds, pointer validity/overflow, signed/unsigned overflow, division) plus the logical bounds woven by R9/R7 on every parse-path function under its precondition; recovery pops and input discarding strictly progress',
                 assumptions=[L_PATH, L_IDS, TABLE_WF, LEXER, 'termination of a run of reductions that consume nothing (no reduce cycle in a conflict-free table) is not mechanised',
